@@ -134,15 +134,15 @@ CHECKS = {
          "BigUint::to_f64 / compiler-rt powi by repeated squaring / IEEE multiplication / the std float parser, all expressed through one correctly-rounded primitive rne computed in exact rational "
          "arithmetic) compared with the 64 result bits of the real code on every generated decimal; kernel-checked: C14_rne_nearest (rne is round-to-nearest: relative error <= 2^-53 in the normal "
          "range, absolute error <= 2^-1075 below it, or infinity), C14_toF64_integer (the scale-0 path is the sign bit plus the correctly rounded magnitude), C14_toF64_zero; "
-         "C14_powi_ten_accurate (all 309 finite powi(10,k) within 7*2^-53, kernel-evaluated table), C14_digit_estimate_keeps25 (the code's f64 digit estimate floor((bits+1) as f64 * LOG10_2), "
-         "computed through the proved rounding primitive, never trims below 25 digits, for every coefficient below 2^(2^39-2); uses 10^97879 <= 2^325147), C14_toF64_negative_scale and "
-         "C14_toF64_positive_scale: for EVERY such coefficient and every scale on the powi path (trimmed exponent <= 308) and on the parser path (trimmed exponent 1..2^31, underflow shortcut "
-         "included) the model's result is infinity or within 2^-48 relative (one subnormal step below 2^-1022) of the exact value - three roundings and the digits dropped by the trimming loop "
-         "composed in exact rational arithmetic. The model no longer contains any hardware float: every step is kernel-transparent.",
+         "C14_toF64_spec - for EVERY coefficient below 2^(2^32) and EVERY i64 scale, through all branches of the code (integer path, digit trimming with its saturating scale arithmetic, "
+         "the powi path including overflow of powi itself, the float-parser path with the underflow shortcut, exponents beyond i32): the result is the sign bit plus a magnitude R with "
+         "R infinite => exact value >= f64::MAX * (1 - 2^-48), and R finite => within 2^-48 relative of the exact value (one subnormal step 2^-1074 below 2^-1022). Built from "
+         "C14_powi_ten_accurate (all 309 finite powi(10,k) within 7*2^-53, kernel-evaluated table), C14_powi_ten_overflow (infinity for every k >= 309), C14_rne_overflow_threshold, "
+         "C14_digit_estimate_keeps25 (the code's f64 digit estimate never trims below 25 digits; uses 10^97879 <= 2^325147) and the error composition in exact rational arithmetic. "
+         "The model contains no hardware float: every step is kernel-transparent.",
          NOTE_COMMON + " Modelled rather than verified: that BigUint::to_f64, u64 as f64, the f64 multiplication, compiler-rt powi and str::parse::<f64> are the correctly rounded operations "
-         "the model says (F64.rne) - tied by the bit-exact comparison of all 64 result bits on every generated decimal. Not yet theorems: powi exponents above 308 (result infinity) and "
-         "scales beyond the i32 range (bit-exact correspondence and oracle only); the driver also compares the rne-based digit estimate with Lean's hardware-float computation on every case "
-         "(evidence tag +hardware-estimate-differs, never seen).",
+         "the model says (F64.rne) - tied by the bit-exact comparison of all 64 result bits on every generated decimal; the driver also compares the rne-based digit estimate with Lean's "
+         "hardware-float computation on every case (evidence tag +hardware-estimate-differs, never seen).",
          "Lean 4 proof (all bit patterns; to_f64 tolerance composed from a proved round-to-nearest primitive) + bit-exact to_f64 model + exact-rational oracle + differential correspondence", "DESIGN.md §5 C14"),
  "C20": ("Translator half: the extractor re-reads on every run which identifier each implicit-default site references (Context::default, RoundingMode::default, round, sqrt/cbrt/inverse, division, "
          "exp target and term precision, Display thresholds and integer no-padding limit) and the kernel-checked theorem C20_default_sites_ok fails if any of them is a literal instead of the "
